@@ -1,8 +1,10 @@
 import CashewsVerif.Lemmas.DisableConc
+import CashewsVerif.Lemmas.DisableHist
 /-
 C17 — keys are routed by longest prefix; disabling truly bypasses the cache.
 Property theorems only; helper lemmas live in `Lemmas/Route.lean`, `Lemmas/RouteGroup.lean`,
-`Lemmas/Disable.lean`, `Lemmas/DisableConc.lean`; the models in `Model/Route.lean`, `Model/Disable.lean`.
+`Lemmas/Disable.lean`, `Lemmas/DisableConc.lean`, `Lemmas/RouteHist.lean`, `Lemmas/DisableStack.lean`,
+`Lemmas/DisableHist.lean`; the models in `Model/Route.lean`, `Model/Disable.lean`.
 
 Strings are lists of code points: `[]` = "", `[97]` = "a", `[98]` = "b", `[97,98]` = "ab",
 `[97,58]` = "a:".
@@ -35,6 +37,62 @@ theorem route_is_longest_prefix (regs : List (List Nat × Nat)) (key : List Nat)
       ∃ p, (p, b) ∈ (Table.ofList regs).regs ∧ p <+: key ∧
         ∀ q ∈ (Table.ofList regs).prefixes, q <+: key → q.length ≤ p.length :=
   Table.getBackend_iff (Table.wf_ofList regs) key b
+
+/-- **Routing is a function of the CURRENT registrations.**  After any history of `setup()` calls —
+new prefixes, prefixes registered again (same or another backend) — the backend that serves a key
+is the one registered LAST under the longest prefix, among all prefixes ever registered, that
+matches the key.  `lastReg` scans the history; no table, no sorting. -/
+theorem route_follows_current_registrations (regs : List (List Nat × Nat)) (key : List Nat) (b : Nat) :
+    (Table.ofList regs).getBackend key = some b ↔
+      ∃ p, lastReg regs p = some b ∧ p <+: key ∧
+        ∀ q ∈ regs.map (·.1), q <+: key → q.length ≤ p.length :=
+  Table.getBackend_ofList_iff regs key b
+
+/-- **A registration takes effect at once, for every key**: after `setup(..., prefix=p)` creating
+backend `b'` — whether `p` is new or was registered before, and whatever was routed earlier — every
+key whose longest registered prefix is `p` is served by `b'`; no key is left with a replaced backend. -/
+theorem registration_takes_effect_at_once (regs : List (List Nat × Nat)) (p : List Nat) (b' : Nat)
+    (key : List Nat) (hp : p <+: key)
+    (hlong : ∀ q ∈ regs.map (·.1), q <+: key → q.length ≤ p.length) :
+    (Table.ofList (regs ++ [(p, b')])).getBackend key = some b' := by
+  rw [Table.getBackend_ofList_iff]
+  refine ⟨p, by rw [lastReg_snoc]; simp, hp, ?_⟩
+  intro q hq hqk
+  simp only [List.map_append, List.map_cons, List.map_nil, List.mem_append, List.mem_singleton] at hq
+  rcases hq with hq | rfl
+  · exact hlong q hq hqk
+  · exact Nat.le_refl _
+
+/-- ... and the keys of the other prefixes stay where they were -/
+theorem registration_leaves_other_keys (regs : List (List Nat × Nat)) (p : List Nat) (b' : Nat)
+    (key : List Nat) (hp : ¬ p <+: key) :
+    (Table.ofList (regs ++ [(p, b')])).getBackend key = (Table.ofList regs).getBackend key := by
+  have hiff : ∀ b, (Table.ofList (regs ++ [(p, b')])).getBackend key = some b ↔
+      (Table.ofList regs).getBackend key = some b := by
+    intro b
+    rw [Table.getBackend_ofList_iff, Table.getBackend_ofList_iff]
+    constructor
+    · rintro ⟨p', h1, h2, h3⟩
+      have hne : ¬ p = p' := fun e => hp (e ▸ h2)
+      rw [lastReg_snoc] at h1
+      simp only [hne, if_false] at h1
+      exact ⟨p', h1, h2, fun q hq => h3 q (by simp [hq])⟩
+    · rintro ⟨p', h1, h2, h3⟩
+      have hne : ¬ p = p' := fun e => hp (e ▸ h2)
+      refine ⟨p', by rw [lastReg_snoc]; simp [hne, h1], h2, ?_⟩
+      intro q hq hqk
+      simp only [List.map_append, List.map_cons, List.map_nil, List.mem_append, List.mem_singleton] at hq
+      rcases hq with hq | rfl
+      · exact h3 q hq hqk
+      · exact absurd hqk hp
+  cases h : (Table.ofList regs).getBackend key with
+  | some b => exact (hiff b).2 h
+  | none =>
+    cases h' : (Table.ofList (regs ++ [(p, b')])).getBackend key with
+    | none => rfl
+    | some b =>
+      rw [(hiff b).1 h'] at h
+      cases h
 
 /-- `NotConfiguredError` is raised exactly when no registered prefix matches the key. -/
 theorem not_configured_iff (regs : List (List Nat × Nat)) (key : List Nat) :
@@ -456,24 +514,205 @@ theorem transaction_wrapper_delegates (t : Table) (w : World) (c : Nat) (f : FCm
   | clear => rfl
   | keysCount => rfl
 
+/-! ## Disabling, through the whole middleware stack
+
+`exec` above is the facade with the disable middleware alone.  The facade really runs every backend
+command through `[auto_init, invalidate, callbacks, disable]`, the last one outermost; `execS` is
+the model of that (`inv`: the caller is inside `invalidate_further()`, `ini`: the backends whose
+`init()` has run), and a backend call is anything a backend object is asked to do: a command, the
+deletion `invalidate_further()` replaces a read by, `init()`. -/
+
+/-- **Which orders of the middlewares are safe.**  A chain of the default middlewares (outermost
+first) issues no backend call of any kind for a disabled command — in every control state, context,
+environment, for every command — IF AND ONLY IF the disable check comes first, preceded at most by
+middlewares that never talk to the backend (`SafeOrder`).  Then it also answers the default shape
+and initialises nothing. -/
+theorem disable_check_must_be_outermost (chain : List Mw) :
+    (∀ (w : World) (c : Nat) (inv : Bool) (tg : Target) (cmd : Cmd) (keys : List (List Nat))
+        (ini : List Nat) (n : Nat), isDisable w c tg.ctl [cmd] = true →
+        runChain w c inv tg cmd keys chain ini n = (defaultShape cmd keys.length, [], ini)) ↔
+      SafeOrder chain := by
+  constructor
+  · intro h
+    apply safe_of_silent
+    intro inv ini
+    rw [h Wdis 0 inv (.raw 0) .get [[]] ini 0 wdis_disabled]
+  · intro h w c inv tg cmd keys ini n hd
+    exact runChain_safe h w c inv tg cmd keys ini n hd
+
+/-- the stack `Cache()` builds — `_default_middlewares = [auto_init, invalidate, callbacks, disable]`
+wrapped in list order, the last outermost — is safe; the same list wrapped in the opposite order
+(disable check innermost) is not -/
+theorem default_stack_is_safe :
+    SafeOrder (chainOf defaultMws) ∧ ¬ SafeOrder (chainOf defaultMws.reverse) := by
+  refine ⟨defaultMws_safe, ?_⟩
+  rintro ⟨pre, post, e, hp⟩
+  cases pre with
+  | nil => simp [chainOf, defaultMws] at e
+  | cons m pre =>
+    have hm := hp m (by simp)
+    subst hm
+    simp [chainOf, defaultMws] at e
+
+/-- **A disabled command touches no backend in any way.**  Whatever public command is run — in any
+control state, in or outside a transaction, inside `invalidate_further()` or not, with backends
+initialised or not — every backend call it causes (command, replacing deletion, `init()`) goes to a
+registered backend for which the command is ENABLED in the caller's context, carries only keys whose
+longest-prefix backend is the receiver, and only such backends get initialised.  Contrapositive: a
+backend that has the command disabled is not asked to do anything. -/
+theorem disabled_command_touches_no_backend (t : Table) (w : World) (c : Nat) (inTx inv : Bool)
+    (ini : List Nat) (f : FCmd) (res : Res) (calls : List BCall) (ini' : List Nat)
+    (h : execS t w c inTx inv ini f = some (res, calls, ini')) :
+    (∀ bc ∈ calls, isDisable w c bc.backend [f.cmd] = false ∧ bc.backend ∈ t.backends ∧
+        ∀ k ∈ bc.keys, t.getBackend k = some bc.backend) ∧
+    (∀ b ∈ ini', b ∈ ini ∨ (b ∈ t.backends ∧ isDisable w c b [f.cmd] = false)) :=
+  ⟨(execS_calls t w c inTx inv ini f res calls ini' h).1,
+   (execS_calls t w c inTx inv ini f res calls ini' h).2.1⟩
+
+/-- the short circuit in every environment: nothing issued, nothing initialised, default shape -/
+theorem disabled_short_circuit_any_env (t : Table) (w : World) (c : Nat) (inTx inv : Bool)
+    (ini : List Nat) (cmd : Cmd) (key : List Nat) (b : Nat) (hb : t.getBackend key = some b)
+    (hd : isDisable w c b [cmd] = true) :
+    execS t w c inTx inv ini (.keyed cmd key) = some (defaultShape cmd 1, [], ini) := by
+  simp only [execS, hb, Option.map_some]
+  rw [stackCall_disabled w c inv (targetOf inTx b) cmd [key] ini 0
+    (by rw [target_ctl_targetOf]; exact hd)]
+  rfl
+
+/-- **One default per key in every environment**: position `i` of a `get_many` answer is the
+caller's default whenever the backend that owns `keys[i]` has `get_many` disabled — also inside
+`invalidate_further()` and on backends that were never initialised. -/
+theorem get_many_default_per_key_any_env (t : Table) (w : World) (c : Nat) (inTx inv : Bool)
+    (ini : List Nat) (keys : List (List Nat)) (slots : List Slot) (calls : List BCall) (ini' : List Nat)
+    (h : execS t w c inTx inv ini (.getMany keys) = some (.many slots, calls, ini'))
+    (i : Nat) (hi : i < keys.length) (b : Nat) (hb : t.getBackend (keys[i]) = some b)
+    (hd : isDisable w c b [.getMany] = true) : slots[i]? = some Slot.dflt :=
+  execS_getMany_disabled_slot t w c inTx inv ini keys slots calls ini' h i hi b hb hd
+
+/-- **While the whole cache is disabled nothing at all reaches any backend**, whatever the
+environment: no command, no deletion, no `init()`; the set of initialised backends is unchanged. -/
+theorem fully_disabled_touches_nothing (t : Table) (w : World) (c : Nat) (inTx inv : Bool)
+    (ini : List Nat) (f : FCmd) (hfull : facadeFullDisable t w c = true) (res : Res)
+    (calls : List BCall) (ini' : List Nat) (h : execS t w c inTx inv ini f = some (res, calls, ini')) :
+    calls = [] ∧ ∀ b, b ∈ ini' ↔ b ∈ ini := by
+  obtain ⟨h1, h2, h3⟩ := execS_calls t w c inTx inv ini f res calls ini' h
+  have hall : ∀ b ∈ t.backends, isDisable w c b [f.cmd] = true := by
+    intro b hb
+    unfold facadeFullDisable at hfull
+    rw [List.all_eq_true] at hfull
+    exact isDisable_of_full (hfull b hb) _
+  refine ⟨?_, fun b => ⟨?_, h3 b⟩⟩
+  · cases hc : calls with
+    | nil => rfl
+    | cons bc rest =>
+      exfalso
+      obtain ⟨g1, g2, _⟩ := h1 bc (by simp [hc])
+      rw [hall _ g2] at g1
+      cases g1
+  · intro hb
+    rcases h2 b hb with hb | ⟨g1, g2⟩
+    · exact hb
+    · rw [hall b g1] at g2
+      cases g2
+
+/-- **`exec` is the special case** of `execS` outside `invalidate_further()` with every registered
+backend initialised: same answer, same commands, no `init()` — so every theorem about `exec` in this
+file is a theorem about the full stack in that environment. -/
+theorem plain_environment (t : Table) (w : World) (c : Nat) (inTx : Bool) (ini : List Nat) (f : FCmd)
+    (hin : ∀ b ∈ t.backends, b ∈ ini) :
+    execS t w c inTx false ini f =
+      (exec t w c inTx f).map fun rc => (rc.1, rc.2.map BCall.cmd, ini) :=
+  execS_plain t w c inTx ini f hin
+
+/-! ## Histories: registration, control and commands interleaved -/
+
+/-- **Every command of every history is routed by the registrations made before it.**  Take any
+history — `setup()` of new prefixes and of prefixes registered already (enabled or disabled, from any
+task), `init()`, control operations, `invalidate_further()` blocks, earlier commands — and run one
+more public command.  Every backend call it causes goes to a backend that is, at that moment, the
+LAST registration of some prefix; every key handed over has that prefix as its longest match among
+all prefixes registered so far; and the receiver has the command enabled in the caller's context. -/
+theorem routing_follows_current_registrations (before : List HOp) (c : Nat) (inTx : Bool) (f : FCmd)
+    (res : Res) (calls : List BCall)
+    (h : (hstep (hrun Sys.fresh before) (.cmd c inTx f)).2 = .cmd (some (res, calls))) :
+    ∀ bc ∈ calls,
+      isDisable (hrun Sys.fresh before).w c bc.backend [f.cmd] = false ∧
+      (∃ p, lastReg (HOp.setups before) p = some bc.backend) ∧
+      ∀ k ∈ bc.keys, ∃ p, lastReg (HOp.setups before) p = some bc.backend ∧ p <+: k ∧
+        ∀ q ∈ (HOp.setups before).map (·.1), q <+: k → q.length ≤ p.length := by
+  obtain ⟨ini', he⟩ := hstep_cmd_out h
+  intro bc hbc
+  obtain ⟨h1, h2, h3⟩ := (execS_calls _ _ c inTx _ _ f res calls ini' he).1 bc hbc
+  rw [hrun_fresh_t] at h2 h3
+  refine ⟨h1, (Table.mem_backends_ofList _ _).1 h2, ?_⟩
+  intro k hk
+  exact (Table.getBackend_ofList_iff _ k _).1 (h3 k hk)
+
+/-- the states reached by any history from a fresh cache: the control state is well formed and every
+backend is enabled by default — `setup(disable=True)` stores the disabled state in the context
+variable (`backend.disable()`), never in `enable_by_default` -/
+theorem reachable_history_ok (ops : List HOp) :
+    (hrun Sys.fresh ops).w.Ok ∧ ∀ b, (hrun Sys.fresh ops).w.enableByDefault b = true := by
+  refine ⟨hrun_ok ops (World.ok_init true), ?_⟩
+  intro b
+  rw [hrun_enableByDefault]
+  rfl
+
 /-! ## Context locality (model of ContextVar copy semantics, asyncio assumption A3) -/
 
 /-- **A change of the enabled/disabled state made in one task is not visible to tasks that did not
-inherit it.**  Take any reachable control state (`w.Ok`), `enable_by_default = True` (its value
-everywhere in cashews), and any sequence of `disable` / `enable` / `disabling()` entries and exits
-(any commands, any prefixes) and task creations, none of which runs in — or creates — context `c'`.
-Then every answer of `is_disable` and `is_full_disable` in `c'`, for every backend and command set,
-is what it was before. -/
-theorem disable_is_context_local (t : Table) (w : World) (hw : w.Ok)
-    (he : w.enableByDefault = true) (ops : List CtlOp) (c' : Nat)
-    (hops : ∀ op ∈ ops, op.target ≠ c') (b : Nat) (cmds : List Cmd) :
+inherit it.**  Take any well-formed control state (`w.Ok`), any sequence of `disable` / `enable` /
+`disabling()` entries and exits (any commands, any prefixes) and task creations, none of which runs
+in — or creates — context `c'`, and a backend `b` that is enabled by default OR whose shared
+`_control_set` flag is raised already.  Then every answer of `is_disable` and `is_full_disable` in
+`c'` for `b`, for every command set, is what it was before.
+The hypothesis on `b` is exactly what is needed (`default_disabled_state_leaks`): `_control_set` is a
+plain attribute shared by all contexts, and `is_disable` consults `enable_by_default` only while it
+is down.  In cashews `enable_by_default` is `True` for every backend, always
+(`reachable_history_ok`), so the hypothesis holds in every reachable state. -/
+theorem disable_is_context_local (t : Table) (w : World) (hw : w.Ok) (ops : List CtlOp) (c' : Nat)
+    (hops : ∀ op ∈ ops, op.target ≠ c') (b : Nat)
+    (hb : w.enableByDefault b = true ∨ w.controlSet b = true) (cmds : List Cmd) :
     isDisable (ctlRun t w ops) c' b cmds = isDisable w c' b cmds ∧
-    isFullDisable (ctlRun t w ops) c' b = isFullDisable w c' b := by
-  have hw' := ok_ctlRun (t := t) ops hw
-  have he' : (ctlRun t w ops).enableByDefault = true := by rw [ctlRun_enableByDefault, he]
-  rw [isDisable_eq hw' he', isDisable_eq hw he, isFullDisable_eq hw' he', isFullDisable_eq hw he,
-    ctlRun_var_other t c' ops w hops]
-  exact ⟨rfl, rfl⟩
+    isFullDisable (ctlRun t w ops) c' b = isFullDisable w c' b :=
+  view_unchanged hw (ok_ctlRun (t := t) ops hw) b c'
+    (by rw [ctlRun_var_other t c' ops w hops]) (by rw [ctlRun_enableByDefault])
+    (ctlRun_controlSet_mono t b ops w) hb cmds
+
+/-- **Why the hypothesis is needed: a disabled state kept in `enable_by_default` leaks.**  If a
+backend is disabled "by default" (`enable_by_default = False`) and nobody has touched its control
+state yet, every context sees it fully disabled — and the FIRST `disable` / `enable` / `disabling()`
+for it in ANY context `c`, with whatever commands (even a further restriction), makes every OTHER
+context `c'` see it fully enabled.  A disabled state that must survive other tasks' control calls
+therefore has to live in the context variable (`backend.disable()`), as `Wrapper.setup` does. -/
+theorem default_disabled_state_leaks (t : Table) (w : World) (hw : w.Ok) (b : Nat)
+    (he : w.enableByDefault b = false) (hc : w.controlSet b = false) (c c' : Nat) (hne : c ≠ c')
+    (p : List Nat) (hp : t.getBackend p = some b) (cmds : List Cmd) (op : CtlOp)
+    (hop : op = .disable c cmds p ∨ op = .enable c cmds p ∨ op = .exitDisabling c cmds p) :
+    isFullDisable w c' b = true ∧
+    (∀ cs, isDisable (ctlStep t w op).1 c' b cs = false) ∧
+    isFullDisable (ctlStep t w op).1 c' b = false := by
+  have hv : w.var c' b = [] := hw b hc c'
+  have hcc : ¬ c' = c := fun e => hne e.symm
+  refine ⟨by simp [isFullDisable, hc, he], ?_⟩
+  rcases hop with rfl | rfl | rfl <;>
+    simp only [ctlStep, hp, disableB, enableB] <;>
+    refine ⟨fun cs => by simp [isDisable, setVar, hcc, hv], by simp [isFullDisable, setVar, hcc, hv]; exact ⟨.get, Cmd.mem_all _⟩⟩
+
+/-- **Locality along whole histories.**  In any history — registrations (also `disable=True`, run
+by other tasks), re-registrations, `init()`, control operations, task creations,
+`invalidate_further()` blocks, commands — in which no operation changes the control state from
+context `c'` (or creates `c'`), the view `c'` has of every backend object that is enabled by default
+or was touched before stays what it was.  (What `cache.is_disable(prefix=p)` answers may still change
+when `p` is registered again: that is the routing table, `route_follows_current_registrations`.) -/
+theorem history_control_is_context_local (s : Sys) (hw : s.w.Ok) (ops : List HOp) (c' : Nat)
+    (hops : ∀ op ∈ ops, op.target ≠ some c') (b : Nat)
+    (hb : s.w.enableByDefault b = true ∨ s.w.controlSet b = true) (cmds : List Cmd) :
+    isDisable (hrun s ops).w c' b cmds = isDisable s.w c' b cmds ∧
+    isFullDisable (hrun s ops).w c' b = isFullDisable s.w c' b :=
+  view_unchanged hw (hrun_ok ops hw) b c'
+    (by rw [hrun_var_other c' ops s hops]) (by rw [hrun_enableByDefault])
+    (hrun_controlSet_mono b ops s) hb cmds
 
 /-- a new task starts with exactly its creator's view (and the creator's own view is unchanged) -/
 theorem child_inherits_parent_state (w : World) (parent child : Nat) (b : Nat) (cmds : List Cmd) :
@@ -485,10 +724,11 @@ theorem child_inherits_parent_state (w : World) (parent child : Nat) (b : Nat) (
   have : ¬ parent = child := fun e => h e.symm
   simp [isDisable, fork, this]
 
-/-- the states reached from a fresh cache are `Ok`, so `disable_is_context_local` applies to them -/
+/-- the states reached from a fresh cache are `Ok` and every backend is enabled by default, so
+`disable_is_context_local` applies to them -/
 theorem reachable_ok (t : Table) (ops : List CtlOp) :
-    (ctlRun t (World.init true) ops).Ok ∧ (ctlRun t (World.init true) ops).enableByDefault = true :=
-  ⟨ok_ctlRun ops (World.ok_init true), by rw [ctlRun_enableByDefault]; rfl⟩
+    (ctlRun t (World.init true) ops).Ok ∧ ∀ b, (ctlRun t (World.init true) ops).enableByDefault b = true :=
+  ⟨ok_ctlRun ops (World.ok_init true), fun b => by rw [ctlRun_enableByDefault]; rfl⟩
 
 /-! ## Non-vacuity: the models compute, the hypotheses are satisfiable -/
 
@@ -602,9 +842,69 @@ example : let w := ctlRun T1 (World.init true) [.disable 0 [] [], .fork 0 1, .en
     (isDisable w 0 0 [.set], isDisable w 1 0 [.set]) = (false, true) := by decide
 example : let w := ctlRun T1 (World.init true) [.disable 0 [] [], .fork 0 1, .enable 1 [] []]
     (isFullDisable w 0 0, isFullDisable w 1 0) = (true, false) := by decide
--- why `enable_by_default = True` is a hypothesis of `disable_is_context_local`: `_control_set` is a
--- plain attribute, so with `enable_by_default = False` a change in context 1 flips context 0's view
+-- why `disable_is_context_local` needs its hypothesis: `_control_set` is a plain attribute, so with
+-- `enable_by_default = False` a change in context 1 flips context 0's view
 example : isDisable (World.init false) 0 0 [.set] = true ∧
     isDisable (ctlRun T1 (World.init false) [.disable 1 [.get] []]) 0 0 [.set] = false := by decide
+-- the premises of `default_disabled_state_leaks` are satisfiable: backend 0 disabled by default, untouched
+example : (World.init false).Ok ∧ (World.init false).enableByDefault 0 = false ∧
+    (World.init false).controlSet 0 = false ∧ T1.getBackend [] = some 0 :=
+  ⟨World.ok_init false, rfl, rfl, by decide⟩
+-- ... while a backend disabled through the context variable (what `setup(disable=True)` does) keeps its
+-- state in context 0 when context 1 enables a command for itself
+example : let w := ctlRun T1 (World.init true) [.disable 0 [] [], .fork 0 1, .enable 1 [.get] []]
+    (isFullDisable w 0 0, isDisable w 1 0 [.get], isDisable w 1 0 [.set]) = (true, false, true) := by decide
+
+-- re-registration: the last registration of a prefix counts
+example : lastReg [([97], 1), ([], 0), ([97], 7)] [97] = some 7 := by decide
+example : (Table.ofList ([([97], 1), ([], 0)] ++ [([97], 7)])).getBackend [97, 98] = some 7 :=
+  registration_takes_effect_at_once _ [97] 7 [97, 98] (by decide) (by decide)
+
+-- the middleware stack.  Context 0 has disabled everything for backend 0 (`Wfull`); inside
+-- `invalidate_further()` on a backend that was never initialised a `get` issues nothing at all ...
+example : execS T1 Wfull 0 false true [] (.keyed .get [107]) = some (.dflt, [], []) := by decide
+example : execS T1 Wfull 0 false true [] (.getMany [[107], [108]]) = some (.many [.dflt, .dflt], [], []) := by
+  decide
+-- ... while with the opposite wrapping order (disable check innermost) the same disabled `get`
+-- initialises the backend and, inside `invalidate_further()`, deletes the key
+example : runChain Wfull 0 true (.raw 0) .get [[107]] (chainOf defaultMws.reverse) [] 0 =
+    (.dflt, [.init (.raw 0), .cmd ⟨.raw 0, .delete, [[107]]⟩], [0]) := by decide
+example : runChain Wfull 0 false (.raw 0) .get [[107]] (chainOf defaultMws.reverse) [] 0 =
+    (.dflt, [.init (.raw 0)], [0]) := by decide
+-- enabled: the first command initialises the backend, the next one does not; inside
+-- `invalidate_further()` a read becomes the deletion and answers the default / `None` per key
+example : execS T1 (World.init true) 0 false false [] (.keyed .get [107]) =
+    some (.resp 1, [.init (.raw 0), .cmd ⟨.raw 0, .get, [[107]]⟩], [0]) := by decide
+example : execS T1 (World.init true) 0 false false [0] (.keyed .get [107]) =
+    some (.resp 0, [.cmd ⟨.raw 0, .get, [[107]]⟩], [0]) := by decide
+example : execS T1 (World.init true) 0 true true [0] (.keyed .get [107]) =
+    some (.dflt, [.cmd ⟨.tx 0, .delete, [[107]]⟩], [0]) := by decide
+example : execS T1 (World.init true) 0 false true [0] (.getMany [[107], [108]]) =
+    some (.many [.missing, .missing], [.cmd ⟨.raw 0, .deleteMany, [[107], [108]]⟩], [0]) := by decide
+-- `set` is not a retrieve command: `invalidate_further()` leaves it alone
+example : execS T1 (World.init true) 0 false true [0] (.keyed .set [107]) =
+    some (.resp 0, [.cmd ⟨.raw 0, .set, [[107]]⟩], [0]) := by decide
+-- partly disabled get_many inside invalidate_further(): defaults for the disabled owner "a",
+-- deletions (and `None`s) for the others
+example : execS T5 W1 0 false true [0, 1, 2, 3, 4] (.getMany [[97, 98, 99], [97, 120], [99]]) =
+    some (.many [.missing, .dflt, .missing],
+      [.cmd ⟨.raw 2, .deleteMany, [[97, 98, 99]]⟩, .cmd ⟨.raw 0, .deleteMany, [[99]]⟩], [0, 1, 2, 3, 4]) := by
+  decide
+
+-- a history: "" and "u:" are set up (backends 0, 1) and initialised, "u:1" is read; then "u:" is
+-- registered again, disabled, by task 0 (backend 2, never initialised): the same key is now the
+-- business of backend 2, which is disabled for task 0 — nothing is issued, nothing initialised —
+-- but enabled for task 1, which did not inherit the change: its read initialises and asks backend 2
+def H0 : List HOp :=
+  [.setup 0 [] 0 false, .setup 0 [117, 58] 1 false, .initB 0, .initB 1, .ctl (.fork 0 1)]
+example : (hstep (hrun Sys.fresh H0) (.cmd 0 false (.keyed .get [117, 58, 49]))).2 =
+    .cmd (some (.resp 0, [.cmd ⟨.raw 1, .get, [[117, 58, 49]]⟩])) := by decide
+example : (hstep (hrun Sys.fresh (H0 ++ [.cmd 0 false (.keyed .get [117, 58, 49]), .setup 0 [117, 58] 2 true]))
+      (.cmd 0 false (.keyed .get [117, 58, 49]))).2 = .cmd (some (.dflt, [])) := by decide
+example : (hstep (hrun Sys.fresh (H0 ++ [.cmd 0 false (.keyed .get [117, 58, 49]), .setup 0 [117, 58] 2 true]))
+      (.cmd 1 false (.keyed .get [117, 58, 49]))).2 =
+    .cmd (some (.resp 1, [.init (.raw 2), .cmd ⟨.raw 2, .get, [[117, 58, 49]]⟩])) := by decide
+example : HOp.setups (H0 ++ [.setup 0 [117, 58] 2 true]) = [([], 0), ([117, 58], 1), ([117, 58], 2)] := by
+  decide
 
 end CashewsVerif.Props.C17
